@@ -360,7 +360,7 @@ def run_reserved(res):
         out = "%s: %s" % (type(e).__name__, e)
     if out != "aH":
         res.violate("filter-argument-named-like-flag", "${'a' | n,mkf(h)} with h='H' in the context gave %r, expected 'aH'" % out,
-                    finding="C04/filter-arg-named-like-flag", witness="${'a' | n,mkf(h)} rendered with h='H'")
+                    finding="C04/filter-arg-named-like-flag" if out.startswith("NameError") and "'h'" in out else None, witness="${'a' | n,mkf(h)} rendered with h='H'")
     # with enable_loop=False, `loop` is an ordinary name
     res.evaluations += 1
     try:
